@@ -592,6 +592,19 @@ func verifyBlock(blk *consensusAPI.Block, lb *cmttypes.LightBlock) error {
 	if !bytes.Equal(lastCommit.Hash(), lb.LastCommitHash) {
 		return fmt.Errorf("mismatched block meta last commit")
 	}
+	// The last commit hash only covers the commit signatures, so also check the commit's block
+	// identifier and height against what the verified header states about the previous block.
+	if !lastCommit.BlockID.Equals(lb.Header.LastBlockID) {
+		return fmt.Errorf("mismatched block meta last commit block identifier")
+	}
+	lastCommitHeight := lb.Height - 1
+	if len(lastCommit.Signatures) == 0 {
+		// The initial block carries an empty commit.
+		lastCommitHeight = 0
+	}
+	if lastCommit.Height != lastCommitHeight {
+		return fmt.Errorf("mismatched block meta last commit height")
+	}
 
 	return nil
 }
